@@ -317,6 +317,15 @@
  */
 #define BUF_SIZE_INITIAL (64 * (CIF_LINE_LENGTH + 2))
 #define BUF_MIN_FILL          (CIF_LINE_LENGTH + 2)
+#if defined(CIF_API_VERIF) && defined(CIF_API_VERIF_BUF_SIZE_INITIAL)
+/* verification hook: lets a bounded-verification build shrink the scan buffer */
+#undef BUF_SIZE_INITIAL
+#define BUF_SIZE_INITIAL CIF_API_VERIF_BUF_SIZE_INITIAL
+#endif
+#if defined(CIF_API_VERIF) && defined(CIF_API_VERIF_BUF_MIN_FILL)
+#undef BUF_MIN_FILL
+#define BUF_MIN_FILL CIF_API_VERIF_BUF_MIN_FILL
+#endif
 
 /* special character codes */
 #define CIF1_MAX_CHAR 0x7E
